@@ -595,5 +595,131 @@ func (f *neoFam) genMsg(r *hx.Run) {
 }
 
 func (f *neoFam) genHdr(r *hx.Run) {
-	r.Rule("todo")
+	neoGenHdr(r, "neohdr")
+}
+
+// neoGenHdr: header-sync histories shared by the neo, neo3 and neo3legacy families (same op vocabulary).
+func neoGenHdr(r *hx.Run, prefix string) {
+	r.Rule("NEO header-sync histories: genesis with an m-of-n consensus (n = 1..10), then batches of 1..4 headers mixing " +
+		"{authenticated change (11 witness signature shapes), same next-consensus, index at/below the tracked height, witness script " +
+		"other than the tracked one, change signed by the NEW set, chained changes inside one batch, decreasing indices inside a batch, " +
+		"second genesis, sync before genesis}; tracked (height, consensus) read back from the store after every op; " +
+		"distinct non-trivial = (n, batch shape, outcome class)")
+	rounds := r.Pick(4, 80)
+	id := 0
+	randCons := func(n int) (int, []int, string) {
+		ks := sortedCopy(r.Rng.Perm(neoPool)[:n])
+		return neoConsM(n), ks, neoDescOf(neoConsM(n), ks)
+	}
+	for round := 0; round < rounds; round++ {
+		for n := 1; n <= 10; n++ {
+			id++
+			r.Case(fmt.Sprintf("%s-%d-%d", prefix, n, id))
+			m, ks, cons := randCons(n)
+			if round == 0 && n <= 2 {
+				res := r.Do(fmt.Sprintf("nhdr 5/%s/%s/-", cons, cons))
+				r.Nontrivial(fmt.Sprintf("%d/before-genesis/%s", n, res))
+			}
+			h := uint32(1 + r.Rng.Intn(50))
+			r.Do(fmt.Sprintf("ngen %d %s", h, cons))
+			record := func(label, res string) {
+				r.Nontrivial(fmt.Sprintf("%d/%s/%s", len(ks), label, strings.Fields(res)[0]))
+				r.Hist("batch." + label)
+				r.Hist("outcome." + strings.Fields(res)[0])
+			}
+			for step := 0; step < 14+neoSigShapes; step++ {
+				_, _, other := randCons(1 + r.Rng.Intn(10))
+				for other == cons {
+					_, _, other = randCons(1 + r.Rng.Intn(10))
+				}
+				good, _ := neoSigShape(r, m, ks, 0)
+				var res string
+				switch {
+				case step < neoSigShapes: // one change header, every witness shape
+					sigs, label := neoSigShape(r, m, ks, step)
+					idx := h + 1 + uint32(r.Rng.Intn(5))
+					res = r.Do(fmt.Sprintf("nhdr %d/%s/%s/%s", idx, other, cons, sigs))
+					record("change-"+label, res)
+				case step == neoSigShapes: // unchanged next consensus: ignored whatever the witness is
+					res = r.Do(fmt.Sprintf("nhdr %d/%s/%s/-", h+3, cons, other))
+					record("same-next", res)
+				case step == neoSigShapes+1: // index at / below the tracked height
+					res = r.Do(fmt.Sprintf("nhdr %d/%s/%s/%s | %d/%s/%s/-", h, other, cons, good, h-1, other, other))
+					record("not-above", res)
+				case step == neoSigShapes+2: // witness script is not the tracked one (signed by the new set itself)
+					m2, ks2, c2 := randCons(1 + r.Rng.Intn(7))
+					for c2 == cons {
+						m2, ks2, c2 = randCons(1 + r.Rng.Intn(7))
+					}
+					s2, _ := neoSigShape(r, m2, ks2, 0)
+					res = r.Do(fmt.Sprintf("nhdr %d/%s/%s/%s", h+2, c2, c2, s2))
+					record("self-signed", res)
+				case step == neoSigShapes+3: // weaker script over the tracked keys
+					res = r.Do(fmt.Sprintf("nhdr %d/%s/%s/g%d", h+2, other, neoDescOf(1, ks), ks[0]))
+					if m == 1 {
+						record("weaker-script-m1", res)
+					} else {
+						record("weaker-script", res)
+					}
+				case step == neoSigShapes+4: // two changes in one batch, both signed by the tracked set: the last one wins
+					_, _, o2 := randCons(1 + r.Rng.Intn(10))
+					res = r.Do(fmt.Sprintf("nhdr %d/%s/%s/%s | %d/%s/%s/%s", h+1, other, cons, good, h+2, o2, cons, good))
+					record("two-changes", res)
+				case step == neoSigShapes+5: // chained change inside one batch: second signed by the first's new set
+					m2, ks2, c2 := randCons(1 + r.Rng.Intn(7))
+					for c2 == cons {
+						m2, ks2, c2 = randCons(1 + r.Rng.Intn(7))
+					}
+					s2, _ := neoSigShape(r, m2, ks2, 0)
+					res = r.Do(fmt.Sprintf("nhdr %d/%s/%s/%s | %d/%s/%s/%s", h+1, c2, cons, good, h+2, other, c2, s2))
+					record("chained-in-batch", res)
+				case step == neoSigShapes+6: // decreasing indices inside a batch
+					_, _, o2 := randCons(1 + r.Rng.Intn(10))
+					res = r.Do(fmt.Sprintf("nhdr %d/%s/%s/%s | %d/%s/%s/%s", h+9, other, cons, good, h+4, o2, cons, good))
+					record("decreasing", res)
+				case step == neoSigShapes+7: // a bad header after a good one: the whole batch is refused
+					res = r.Do(fmt.Sprintf("nhdr %d/%s/%s/%s | %d/%s/%s/-", h+1, other, cons, good, h+2, other, cons))
+					record("good-then-bad", res)
+				case step == neoSigShapes+8: // second genesis must not replace the tracked consensus
+					res = r.Do(fmt.Sprintf("ngen %d %s", h+100, other))
+					record("second-genesis", res)
+				case step == neoSigShapes+9: // empty batch
+					res = r.Do("nhdr")
+					record("empty-batch", res)
+				default: // a random mix of 1..4 headers
+					k := 1 + r.Rng.Intn(4)
+					var toks []string
+					for j := 0; j < k; j++ {
+						idx := h - 2 + uint32(r.Rng.Intn(8))
+						next := other
+						if r.Rng.Chance(1, 4) {
+							next = cons
+						}
+						ws := cons
+						if r.Rng.Chance(1, 5) {
+							ws = other
+						}
+						sigs, _ := neoSigShape(r, m, ks, r.Rng.Intn(neoSigShapes))
+						if r.Rng.Chance(1, 2) {
+							sigs = good
+						}
+						toks = append(toks, fmt.Sprintf("%d/%s/%s/%s", idx, next, ws, sigs))
+					}
+					res = r.Do("nhdr " + strings.Join(toks, " | "))
+					record(fmt.Sprintf("mix%d", k), res)
+				}
+				// follow the tracked state as reported by the store
+				f := strings.Fields(res)
+				if len(f) == 3 && strings.HasPrefix(f[1], "h=") && strings.HasPrefix(f[2], "c=") {
+					nh, _ := strconv.ParseUint(f[1][2:], 10, 32)
+					if d, ok := parseNeoDesc(f[2][2:]); ok && (uint32(nh) != h || f[2][2:] != cons) {
+						h, cons, m, ks = uint32(nh), f[2][2:], d.m, d.keys
+					}
+				}
+				if id%9 == 1 && step == neoSigShapes+4 {
+					r.Sample(map[string]interface{}{"tracked": cons, "outcome": res})
+				}
+			}
+		}
+	}
 }
